@@ -794,6 +794,38 @@ func init() {
 						}
 						e.mr.FlushAll()
 					}
+					// ... whether or not a backend logout URL is configured (the provider-side logout does not make the local one a success)
+					if redis && path == "" && dom == nil {
+						cfgB := cfg
+						cfgB.Htpasswd = nil
+						cfgB.BackendLogout = true
+						if eb, err := newEnv(c, cfgB); err == nil {
+							for _, kind := range []string{"before", "always-hook"} {
+								b := newBrowser()
+								if lr := eb.login(b, u, "/x"); !lr.OK {
+									continue
+								}
+								ck := b.cookieHeader()
+								if kind == "always-hook" {
+									eb.redisFault = map[string]string{"DEL": "always"}
+								} else {
+									eb.redisFault = map[string]string{"DEL": "before"}
+								}
+								v := eb.do(reqSpec{Target: eb.opts.ProxyPrefix + "/sign_out", Cookie: ck})
+								eb.redisFault = nil
+								r2 := eb.do(reqSpec{Target: "/app/replay", Cookie: ck})
+								c.casen("c11|backend-logout-del-fails|"+kind, fmt.Sprint(v.Status))
+								c.count("signout:del-fault-backend-logout")
+								if v.Status == 302 && len(r2.Hits) > 0 {
+									c.violation("C11", "sign-out (backend logout URL configured) answered with the success redirect although the stored session could not be removed: the pre-sign-out cookie still authenticates",
+										map[string]interface{}{"status": v.Status, "location": v.Location, "redis_del": kind})
+									c.violation("C13", "a successful sign-out is reported while the stored session is still loadable (backend logout URL configured, Redis DEL failed)", map[string]interface{}{"status": v.Status})
+								}
+								eb.mr.FlushAll()
+							}
+							eb.close()
+						}
+					}
 					// a sign-out that cannot remove the stored session is an error, not the redirect
 					if redis {
 						b := newBrowser()
